@@ -267,7 +267,17 @@ func (in *interp) forKV(ks []string, vname string, over expr, body []stmt, form 
 		walk(c.m, nil, 1)
 		in.hit("sem:forN-multi-key")
 	}
-	for _, b := range iter {
+	for bi, b := range iter {
+		if form == 3 && bi > 0 {
+			// the implementation binds an outer key once per outer entry, not once per iteration:
+			// whether a body assignment to it survives into the next inner iteration is not documented
+			prev := iter[bi-1]
+			for j := 0; j+1 < len(ks); j++ {
+				if cur := in.curFrame().find(ks[j]); cur != nil && !cur.v.equal(prev.keys[j]) && b.keys[j].equal(prev.keys[j]) {
+					uncon("a multi-key loop's outer key variable was changed in the body")
+				}
+			}
+		}
 		for i, k := range ks {
 			in.bindLoopVar(k, b.keys[i])
 		}
